@@ -531,6 +531,117 @@ fn parked_round(case_seed: u64, r: &mut Report, args: &Args) {
     }
 }
 
+/// sync() is an acknowledgement too: once it has returned Ok, every durable write that returned
+/// before sync() was called must be in what a crash leaves on disk - also when another writer is
+/// in the middle of its own durable write (parked at put_durable:after_log) while sync() runs.
+fn sync_round(case_seed: u64, r: &mut Report, args: &Args) {
+    let mut rng = Rng::new(case_seed);
+    let scratch = args.scratch_dir("c11s");
+    let wal_path = scratch.join("c11s.wal");
+    let replay = json!({"part": "sync", "case_seed": case_seed});
+    let store = match TensorStore::open_durable(&wal_path, wal_cfg("manual")) {
+        Ok(s) => Arc::new(s),
+        Err(e) => {
+            r.inconclusive(&format!("open_durable: {}", e));
+            return;
+        }
+    };
+    let class = *rng.pick(&["k:", "emb:", "node:", "table:"]);
+    let shape = |k: &str| if k.starts_with("emb:") { Shape::EmbSlab } else { Shape::Plain };
+    // 1-4 writes that have returned before sync() is called
+    let n_before = 1 + rng.below(4);
+    let mut acked: Vec<(String, u64)> = Vec::new();
+    for i in 0..n_before {
+        let k = format!("{}s{}", class, i);
+        let w = wid_for(0, i as u64 + 1, shape(&k));
+        if store.put_durable(k.clone(), make_value(w, shape(&k))).is_ok() {
+            acked.push((k, w));
+        }
+    }
+    // writer A parks in the middle of its own durable write
+    let gate = sched::Gate::new();
+    let (sa, ga) = (store.clone(), gate.clone());
+    let ka = format!("{}sA", class);
+    let wa = wid_for(1, 1, shape(&ka));
+    let ka2 = ka.clone();
+    let ta = std::thread::spawn(move || {
+        sched::set_thread_handler(Some(sched::park_at("put_durable:after_log", 0, ga)));
+        let ok = sa.put_durable(ka2.clone(), make_value(wa, shape(&ka2))).is_ok();
+        sched::set_thread_handler(None);
+        ok
+    });
+    if !gate.wait_parked(Duration::from_secs(10)) {
+        gate.release();
+        let _ = ta.join();
+        r.inconclusive("writer A never reached the schedule point");
+        return;
+    }
+    let done = Arc::new(std::sync::atomic::AtomicBool::new(false));
+    let (ss, ds) = (store.clone(), done.clone());
+    let ts = std::thread::spawn(move || {
+        let res = ss.sync();
+        ds.store(true, Ordering::SeqCst);
+        res.is_ok()
+    });
+    let t0 = Instant::now();
+    while !done.load(Ordering::SeqCst) && t0.elapsed() < Duration::from_millis(120) {
+        std::thread::sleep(Duration::from_millis(1));
+    }
+    let returned_while_parked = done.load(Ordering::SeqCst);
+    let image = scratch.join("image.wal");
+    let mut took_image_while_parked = false;
+    if returned_while_parked {
+        // sync() has returned while A still holds its place: what is on disk NOW is what a crash leaves
+        let _ = std::fs::copy(&wal_path, &image);
+        took_image_while_parked = true;
+        r.count("sync_returned_while_other_writer_parked", 1);
+    } else {
+        r.count("sync_blocked_until_other_writer_finished", 1);
+    }
+    gate.release();
+    let _ = ta.join();
+    let sync_ok = ts.join().unwrap_or(false);
+    if gate.timed_out() {
+        r.inconclusive("park timed out");
+        return;
+    }
+    if !sync_ok {
+        // a sync that reports an error acknowledges nothing
+        r.count("sync_reported_error", 1);
+        r.eval(hash_combine(case_seed, 0x5C), true);
+        return;
+    }
+    if !took_image_while_parked {
+        let _ = std::fs::copy(&wal_path, &image);
+    }
+    r.count("sync_rounds", 1);
+    match TensorStore::recover(&image, &wal_cfg("manual"), None) {
+        Ok(rec) => {
+            for (k, w) in &acked {
+                match rec.get(k).map(|d| decode_value(&d)) {
+                    Ok(Ok(x)) if x == *w => {}
+                    other => {
+                        r.violation(
+                            if took_image_while_parked { "sync:ok-but-earlier-write-not-on-disk:sync-returned-while-another-writer-held-the-log" } else { "sync:ok-but-earlier-write-not-on-disk" },
+                            format!(
+                                "manual sync mode: put_durable({}) returned, then sync() returned Ok ({}); the log file as it was right after sync() returned recovers {} = {:?}, expected write {}",
+                                k, if took_image_while_parked { "while another writer was parked at put_durable:after_log" } else { "after the other writer had finished" }, k, other.map(|x| x.map_err(|e| trunc(&e, 120))).map_err(|_| "NotFound"), w
+                            ),
+                            replay.clone(),
+                        );
+                        return;
+                    }
+                }
+            }
+        }
+        Err(e) => {
+            r.violation("sync:image-after-sync-does-not-recover", format!("{}", e), replay);
+            return;
+        }
+    }
+    r.eval(hash_combine(case_seed, 0x5C), true);
+}
+
 /// Sequential sanity of the register semantics the linearizability model assumes (one thread):
 /// a get after a put returns exactly that put, whatever was stored before.
 fn sequential_round(case_seed: u64, r: &mut Report) {
@@ -988,6 +1099,7 @@ fn main() {
         for _ in 0..200 {
             match rp["part"].as_str().unwrap_or("stress") {
                 "parked" => parked_round(s, &mut total, &args),
+                "sync" => sync_round(s, &mut total, &args),
                 "engines" => engine_round(s, &mut total),
                 "fresh" => fresh_keys_round(s, &mut total),
                 "bigscan" => bigscan_round(s, &mut total),
@@ -1013,6 +1125,12 @@ fn main() {
             let n = args.by_tier(24u64, 400u64);
             let a2 = args.clone();
             let rep = par_cases(args.threads.min(8), args.seed ^ 0x77, n, args.budget(30, 300), move |_i, s, r| parked_round(s, r, &a2));
+            total.merge(rep);
+        }
+        if part == "all" || part == "parked" || part == "sync" {
+            let n = args.by_tier(40u64, 600u64);
+            let a2 = args.clone();
+            let rep = par_cases(args.threads.min(8), args.seed ^ 0x5C, n, args.budget(20, 200), move |_i, s, r| sync_round(s, r, &a2));
             total.merge(rep);
         }
         if part == "all" || part == "engines" {
@@ -1043,7 +1161,7 @@ fn main() {
     }
     let meta = Meta {
         property: "C11",
-        rule: "stress round = one real TensorStore, 2-8 OS threads x 6-19 operations on 1-4 contended keys of classes plain/emb(384-dim slab vector, other dim, none)/node/table/edge/_cache, non-durable or durable (manual / immediate sync), half of the rounds with seeded jitter at the put_durable/delete_durable hook points; every call recorded at the client boundary (atomic tick before and after); values self-describing (write id in every field and vector element). Oracles: value integrity per read, Wing-Gong linearizability per key (scan decomposed per key), recovered-state (latest checkpoint + log; durable rounds take checkpoints concurrently with the writers) == live state after quiescence. Distinct = hash of the observed call order (thread, op, key by call tick); non-trivial = at least two operations of different threads on one key overlapped in time. parked rounds = the deterministic two-writer schedule at put_durable:after_log; sequential rounds = single-thread register semantics; fresh rounds = 3-8 threads creating 4-15 (on a store with a small Bloom filter: 40-119) distinct new keys each at the same instant, every key read back at quiescence; one stress round in six (non-durable) uses values with 2500 padding fields so that reads fall between the steps of a put; bigscan rounds = 1-3 writers toggling pairs of keys that lie >1000 keys apart under one prefix of 2200-3600 passive keys (first key put first and deleted last, every call returning before the next starts) against 1-3 scanners of the whole prefix: a scan must never list the second key of a pair without the first, nor miss a passive key; visibility rounds = one writer alternating put (two thirds of the rounds with 2500-field values) / delete on one key of class emb/plain/node/cache, 1-3 observers reading its presence through scan, exists and get in sequence: two consecutive reads of one observer may differ only if a put resp. delete was in progress or started between them (writer calls counted before invocation and after return); engine rounds = the same history check on VectorEngine::{store_embedding,get_embedding,delete_embedding,exists} over one shared store.",
+        rule: "stress round = one real TensorStore, 2-8 OS threads x 6-19 operations on 1-4 contended keys of classes plain/emb(384-dim slab vector, other dim, none)/node/table/edge/_cache, non-durable or durable (manual / immediate sync), half of the rounds with seeded jitter at the put_durable/delete_durable hook points; every call recorded at the client boundary (atomic tick before and after); values self-describing (write id in every field and vector element). Oracles: value integrity per read, Wing-Gong linearizability per key (scan decomposed per key), recovered-state (latest checkpoint + log; durable rounds take checkpoints concurrently with the writers) == live state after quiescence. Distinct = hash of the observed call order (thread, op, key by call tick); non-trivial = at least two operations of different threads on one key overlapped in time. parked rounds = the deterministic two-writer schedule at put_durable:after_log; sync rounds = 1-4 durable writes return (manual sync mode), another writer parks at put_durable:after_log, sync() is called: the log file as it is right after sync() returned Ok must recover every earlier write; sequential rounds = single-thread register semantics; fresh rounds = 3-8 threads creating 4-15 (on a store with a small Bloom filter: 40-119) distinct new keys each at the same instant, every key read back at quiescence; one stress round in six (non-durable) uses values with 2500 padding fields so that reads fall between the steps of a put; bigscan rounds = 1-3 writers toggling pairs of keys that lie >1000 keys apart under one prefix of 2200-3600 passive keys (first key put first and deleted last, every call returning before the next starts) against 1-3 scanners of the whole prefix: a scan must never list the second key of a pair without the first, nor miss a passive key; visibility rounds = one writer alternating put (two thirds of the rounds with 2500-field values) / delete on one key of class emb/plain/node/cache, 1-3 observers reading its presence through scan, exists and get in sequence: two consecutive reads of one observer may differ only if a put resp. delete was in progress or started between them (writer calls counted before invocation and after return); engine rounds = the same history check on VectorEngine::{store_embedding,get_embedding,delete_embedding,exists} over one shared store.",
         assumptions: vec![
             "the Ok/NotFound result of delete is not judged (Delete is modelled as a blind write); a failed delete records no event".into(),
             "in stress rounds a prefix scan is judged per key (each listed/absent contended key is a read inside the scan's interval); its atomicity across keys is judged in the bigscan rounds, for keys of one class (a prefix spanning several slabs - metadata, entity index, cache ring - is assembled from one atomic listing per slab)".into(),
@@ -1052,7 +1170,7 @@ fn main() {
         floors: if args.replay.is_some() || part != "all" {
             vec![("evaluations", 5)]
         } else {
-            vec![("events_recorded", 5_000), ("rounds_with_overlapping_ops", 100), ("key_histories_linearizable", 200), ("parked_at_after_log", 5), ("durable_rounds_recovered", 20), ("durable_rounds_with_concurrent_checkpoint", 10), ("sequential_reads_checked", 500), ("engine_key_histories_linearizable", 100), ("fresh_keys_read_back", 2_000), ("fresh_keys_read_back_through_bloom_filter", 5_000), ("bigscan_scans", 2_000), ("visibility_reads", 20_000), ("visibility_presence_changes_seen", 500), ("bigscan_scans_that_saw_a_half_done_pair", 20)]
+            vec![("events_recorded", 5_000), ("rounds_with_overlapping_ops", 100), ("key_histories_linearizable", 200), ("parked_at_after_log", 5), ("sync_rounds", 10), ("durable_rounds_recovered", 20), ("durable_rounds_with_concurrent_checkpoint", 10), ("sequential_reads_checked", 500), ("engine_key_histories_linearizable", 100), ("fresh_keys_read_back", 2_000), ("fresh_keys_read_back_through_bloom_filter", 5_000), ("bigscan_scans", 2_000), ("visibility_reads", 20_000), ("visibility_presence_changes_seen", 500), ("bigscan_scans_that_saw_a_half_done_pair", 20)]
         },
         exhaustive: false,
     };
